@@ -51,6 +51,13 @@ theorem concatM_append (a b : List (Except PyErr Bytes)) (x y : Bytes) (ha : con
         obtain rfl := Except.ok.inj ha
         simp only [ih r hr, bind, Except.bind, pure, Except.pure, List.append_assoc]
 
+theorem concatM_replicate (b : Bytes) (n : Nat) :
+    concatM (List.replicate n (Except.ok b)) = .ok ((List.replicate n ()).flatMap (fun _ => b)) := by
+  induction n with
+  | zero => simp [concatM]
+  | succ n ih =>
+    simp only [List.replicate_succ, concatM, List.flatMap_cons, ih, bind, Except.bind, pure, Except.pure]
+
 /-! ### `struct.pack` instances -/
 
 theorem pack_i (ht : Nat) (h : ht < 256) : Py.pack "<i" (ht : Int) = .ok (leBytes 4 ht) := by
@@ -66,10 +73,15 @@ theorem pack_i (ht : Nat) (h : ht < 256) : Py.pack "<i" (ht : Int) = .ok (leByte
 def filler : TxOut := { amount := -1, script := [] }
 
 theorem filler_bytes (T : Tables) : TxOut.toBytes T filler = .ok (List.replicate 8 0xff ++ [0x00]) := by
-  have e : Py.pack "<q" (-1) = packS 8 (-1) := rfl
+  have e : Py.pack "<q" (-1) = .ok (List.replicate 8 0xff) := by
+    have e' : Py.pack "<q" (-1) = packS 8 (-1) := rfl
+    rw [e']
+    unfold packS
+    rw [if_pos (by decide)]
+    exact congrArg Except.ok (by decide)
   unfold TxOut.toBytes
-  simp only [filler, e, scriptBytes]
-  decide
+  simp only [filler, e, scriptBytes, bind, Except.bind, pure, Except.pure]
+  exact congrArg Except.ok (by decide)
 
 /-! ### the temporary inputs in closed form -/
 
@@ -86,17 +98,13 @@ theorem ins1_eq (l : List TxIn) (i : Nat) (code : List Tok) (x : TxIn)
   apply List.ext_getElem
   · simp
   · intro k h1 h2
-    simp only [List.length_set, List.length_map] at h1
+    have hk1 : k < l.length := by simpa using h1
     simp only [List.getElem?_map, Option.map_eq_some_iff] at hx
     obtain ⟨y, hy, rfl⟩ := hx
-    have hi : i < l.length := by
-      by_contra hc
-      rw [List.getElem?_eq_none (by omega)] at hy
-      exact absurd hy (by simp)
-    rw [List.getElem?_eq_getElem hi] at hy
-    obtain rfl := Option.some.inj hy
-    simp only [List.getElem_set, List.getElem_map, List.getElem_range, List.getD_eq_getElem?_getD,
-      List.getElem?_eq_getElem h1, Option.getD_some, tmpIn]
+    obtain ⟨hi, rfl⟩ := List.getElem?_eq_some_iff.mp hy
+    have hd : l.getD k default = l[k] := by
+      simp [List.getD_eq_getElem?_getD, List.getElem?_eq_getElem hk1]
+    simp only [List.getElem_set, List.getElem_map, List.getElem_range, hd, tmpIn]
     by_cases hk : i = k
     · subst hk
       simp
@@ -166,12 +174,7 @@ theorem outs_single (T : Tables) (l : List TxOut) (i ht : Nat) (hb : ht &&& 0x1f
     (ho : l[i]? = some o) (hl : TxOut.toBytes T o = .ok (encOut (C01.rawOut T o))) :
     concatM ((List.replicate i ({ amount := -1, script := [] } : TxOut) ++ [o]).map (TxOut.toBytes T)) =
       .ok ((List.range (i + 1)).flatMap (legacyOutput (l.map (C01.rawOut T)) i ht)) := by
-  have hi : i < l.length := by
-    by_contra hc
-    rw [List.getElem?_eq_none (by omega)] at ho
-    exact absurd ho (by simp)
-  rw [List.getElem?_eq_getElem hi] at ho
-  obtain rfl := Option.some.inj ho
+  obtain ⟨hi, rfl⟩ := List.getElem?_eq_some_iff.mp ho
   rw [List.map_append, List.range_succ, List.flatMap_append]
   apply concatM_append
   · rw [flatMap_range_const (legacyOutput (l.map (C01.rawOut T)) i ht) (List.replicate 8 0xff ++ [0x00]) i]
@@ -179,13 +182,7 @@ theorem outs_single (T : Tables) (l : List TxOut) (i ht : Nat) (hb : ht &&& 0x1f
       have := filler_bytes T
       unfold filler at this
       rw [this]
-      generalize (List.replicate 8 (0xff : UInt8) ++ [0x00]) = b
-      induction i with
-      | zero => simp [concatM]
-      | succ n ih =>
-        simp only [List.replicate_succ, concatM, List.flatMap_cons]
-        rw [ih (by omega)]
-        simp [bind, Except.bind, pure, Except.pure]
+      exact concatM_replicate _ i
     · intro k hk
       unfold legacyOutput
       have : k ≠ i := by omega
@@ -208,8 +205,62 @@ theorem finish (sha256 : Bytes → Bytes) (T : Tables) (t : Tx) (ins3 : List TxI
       pure (sha256 (sha256 (ser ++ htb))) : Except PyErr Bytes) =
     .ok (sha256 (sha256 (t.version ++ compactSize ins3.length ++ insB ++ compactSize outs.length ++ outsB ++
       t.locktime ++ leBytes 4 ht))) := by
+  rw [pack_i ht hht]
   unfold Tx.toBytes
-  simp only [h1, h2, pack_i ht hht, bind, Except.bind, pure, Except.pure, Bool.false_eq_true, if_false,
+  simp only [h1, h2, bind, Except.bind, pure, Except.pure, Bool.false_eq_true, if_false,
     List.append_nil, List.append_assoc]
+
+/-- from the closed form of the inputs (before the ANYONECANPAY cut) and the serialised outputs to the
+digest over the consensus input section -/
+theorem finish2 (sha256 : Bytes → Bytes) (T : Tables) (t : Tx) (code : List Tok) (c : Bytes)
+    (hc : scriptBytes T code = .ok c)
+    (hl : ∀ x ∈ t.inputs, x.txid ≠ zero32 ∧ 0 ≤ x.index ∧ x.index < 2 ^ 32)
+    (i : Nat) (hi : i < t.inputs.length) (ht : Nat) (hht : ht < 256)
+    (z : Bool) (hz : z = decide (ht &&& 0x1f = 2 ∨ ht &&& 0x1f = 3))
+    (outs : List TxOut) (outsB : Bytes) (h2 : concatM (outs.map (TxOut.toBytes T)) = .ok outsB) :
+    (do
+      let ser ← ({ t with
+        inputs :=
+          if ht &&& 0x80 ≠ 0 then
+            (match ((List.range t.inputs.length).map (fun k =>
+                tmpIn code i z k (t.inputs.getD k default)))[i]? with
+             | some y => [y]
+             | none => [])
+          else (List.range t.inputs.length).map (fun k =>
+            tmpIn code i z k (t.inputs.getD k default)),
+        outputs := outs } : Tx).toBytes T false
+      let htb ← Py.pack "<i" (ht : Int)
+      pure (sha256 (sha256 (ser ++ htb))) : Except PyErr Bytes) =
+    .ok (sha256 (sha256 (t.version ++
+      compactSize (if ht &&& 0x80 ≠ 0 then 1 else t.inputs.length) ++
+      (List.range (if ht &&& 0x80 ≠ 0 then 1 else t.inputs.length)).flatMap
+        (fun k => legacyInput (t.inputs.map (C01.rawIn T)) i c ht (if ht &&& 0x80 ≠ 0 then i else k)) ++
+      compactSize outs.length ++ outsB ++ t.locktime ++ leBytes 4 ht))) := by
+  subst hz
+  by_cases ha : ht &&& 0x80 ≠ 0
+  · simp only [if_pos ha]
+    have e : ((List.range t.inputs.length).map (fun k =>
+        tmpIn code i (decide (ht &&& 0x1f = 2 ∨ ht &&& 0x1f = 3)) k (t.inputs.getD k default)))[i]? =
+        some (tmpIn code i (decide (ht &&& 0x1f = 2 ∨ ht &&& 0x1f = 3)) i (t.inputs.getD i default)) := by
+      simp [hi]
+    rw [e]
+    have h1 : concatM ([tmpIn code i (decide (ht &&& 0x1f = 2 ∨ ht &&& 0x1f = 3)) i
+        (t.inputs.getD i default)].map (TxIn.toBytes T)) =
+        .ok (legacyInput (t.inputs.map (C01.rawIn T)) i c ht i) := by
+      simp only [List.map_cons, List.map_nil, concatM, toBytes_tmpIn_spec T code c hc t.inputs hl i ht i hi,
+        bind, Except.bind, pure, Except.pure, List.append_nil]
+    rw [finish sha256 T t _ outs _ outsB ht hht h1 h2]
+    simp
+  · simp only [if_neg ha]
+    have h1 : concatM (((List.range t.inputs.length).map (fun k =>
+        tmpIn code i (decide (ht &&& 0x1f = 2 ∨ ht &&& 0x1f = 3)) k (t.inputs.getD k default))).map
+          (TxIn.toBytes T)) =
+        .ok ((List.range t.inputs.length).flatMap (legacyInput (t.inputs.map (C01.rawIn T)) i c ht)) := by
+      rw [List.map_map]
+      apply concatM_map
+      intro k hk
+      exact toBytes_tmpIn_spec T code c hc t.inputs hl i ht k (by simpa using hk)
+    rw [finish sha256 T t _ outs _ outsB ht hht h1 h2]
+    simp
 
 end Digest03
